@@ -293,7 +293,8 @@ def run_acc(ctx, p):
     f = ACC()[name][1]
     sig = dict(api='%s.%s' % (c, name))
     try:
-        singles = [f(mk(c, [a])) for a in A]
+        from .c17_immutable import clone
+        singles = [clone(f(mk(c, [a]))) for a in A]      # copied at once: a result buffer shared between calls must not hide differences
     except Exception as e:
         ctx.ood('accessor')        # single-valued accessor itself fails: other properties decide that
         ctx.cell('acc_single_raises', c, name, type(e).__name__)
